@@ -358,6 +358,8 @@ class Evaluator:
             return g
         if n == 'Path':
             return VFunc('module', 'pathlib.Path')
+        if n in ('_as_array',):
+            return VFunc('module', n)
         raise Unsupported('unknown name %r (line %s)' % (n, getattr(node, 'lineno', '?')))
 
     def ev_Tuple(self, node, st):
@@ -457,7 +459,7 @@ class Evaluator:
         return self.binop(node.op, a, b, st, node)
 
     def binop(self, op, a, b, st, node):
-        if isinstance(a, VList) and isinstance(b, VList) and isinstance(op, ast.Add):
+        if isinstance(a, VList) and isinstance(b, VList) and isinstance(op, ast.Add) and not a.nd and not b.nd:
             return self.list_concat(a, b, st)
         if isinstance(a, VTuple) and isinstance(b, VTuple) and isinstance(op, ast.Add):
             return VTuple(a.items + b.items)
@@ -514,25 +516,6 @@ class Evaluator:
         raise Unsupported('binary operator %s' % type(op).__name__)
 
     def binop_hook(self, op, a, b, st, node):
-        # 1-D numpy int arrays: elementwise arithmetic with an int scalar (A-NOOVF: no wrap-around)
-        if isinstance(a, VList) and a.nd and isinstance(b, VInt) and isinstance(op, (ast.Add, ast.Sub, ast.Mod)):
-            cell = st.heap.lists[a.ref]
-            if cell.etype != 'int':
-                return None
-            res, n = st.heap.fresh_list('int', 'ew')
-            res = VList(res.ref, nd=True)
-            st.assume(n == cell.length)
-            k = z3.Int(fresh_name('k'))
-            ra = st.heap.lists[res.ref].leaves[0]
-            if isinstance(op, ast.Mod):
-                cb = const_int(b.t)
-                if cb is None or cb <= 0:
-                    return None
-                body = cell.leaves[0][k] % b.t
-            else:
-                body = (cell.leaves[0][k] + b.t) if isinstance(op, ast.Add) else (cell.leaves[0][k] - b.t)
-            st.assume(z3.ForAll([k], z3.Implies(z3.And(k >= 0, k < cell.length), ra[k] == body)))
-            return res
         return None
 
     def ev_Compare(self, node, st):
@@ -553,19 +536,10 @@ class Evaluator:
         if isinstance(op, ast.Eq) and isinstance(a, VElem) and a.kind == 'ndarray' and isinstance(b, VInt):
             f = z3.Function('mask_eq', Elem, z3.IntSort(), Elem)
             return ('val', VElem(f(a.t, b.t), kind='ndarray'))
-        if isinstance(op, (ast.Eq, ast.NotEq)) and ((isinstance(a, VList) and a.nd) or (isinstance(b, VList) and b.nd)):
-            # numpy: comparison with an ndarray is elementwise; the result is an array of the same length
-            arr, other = (a, b) if isinstance(a, VList) and a.nd else (b, a)
-            cell = st.heap.lists[arr.ref]
-            res, n = st.heap.fresh_list('bool', 'cmp')
-            st.assume(n == cell.length)
-            k = z3.Int(fresh_name('k'))
-            if not is_num(other):
-                st.assume(z3.ForAll([k], z3.Implies(z3.And(k >= 0, k < n), st.heap.lists[res.ref].leaves[0][k] == z3.BoolVal(isinstance(op, ast.NotEq)))))
-            elif cell.etype == 'int':
-                e_ = cell.leaves[0][k] == as_int(other)
-                st.assume(z3.ForAll([k], z3.Implies(z3.And(k >= 0, k < n), st.heap.lists[res.ref].leaves[0][k] == (z3.Not(e_) if isinstance(op, ast.NotEq) else e_))))
-            return ('ndbool', VList(res.ref, nd=True))
+        if isinstance(op, (ast.Eq, ast.NotEq, ast.Lt, ast.LtE, ast.Gt, ast.GtE)):
+            r_ = self.nd_compare(op, a, b, st, node)
+            if r_ is not None:
+                return ('val', r_)
         if isinstance(op, ast.Eq):
             return self.eq(a, b, st)
         if isinstance(op, ast.NotEq):
@@ -641,6 +615,11 @@ class Evaluator:
         if isinstance(base, VList):
             if isinstance(sl, VSlice):
                 return self.list_slice(base, sl, st, node)
+            if isinstance(sl, VList):
+                h = self.nd_subscript(base, sl, st, node)
+                if h is not None:
+                    return h
+                raise Unsupported('index array on %r (line %s)' % (base, getattr(node, 'lineno', '?')))
             if isinstance(sl, VTuple):
                 h = self.subscript_hook(base, sl, st, node)
                 if h is not None:
@@ -703,6 +682,14 @@ class Evaluator:
                 return m
         if isinstance(base, VList) and base.nd and attr == 'shape' and base.width is not None:
             return VTuple([VInt(st.heap.lists[base.ref].length), VInt(base.width)])
+        if isinstance(base, VList) and base.nd and attr in ('max', 'min', 'copy', 'astype', 'any', 'all', 'tolist', 'ravel', 'flatten', 'squeeze'):
+            return VFunc('ndmethod', attr, self_val=base)
+        if isinstance(base, VList) and base.nd and attr == 'size' and base.width is None:
+            return VInt(st.heap.lists[base.ref].length)
+        if isinstance(base, VList) and base.nd and attr == 'shape' and base.width is None:
+            return VTuple([VInt(st.heap.lists[base.ref].length)])
+        if isinstance(base, VList) and base.nd and attr == 'ndim':
+            return VInt(1 if base.width is None else 2)
         if isinstance(base, VList) and base.nd and attr == 'dtype':
             return VElem(z3.Const('some_dtype', Elem))
         if isinstance(base, VBlocks) and attr == 'append':
